@@ -127,16 +127,37 @@ theorem tie_stmts_Package : Generated.stmts_Package =
 
 /-- T groups_partition: every package is in exactly one group (the groups, concatenated, are a
 permutation of the input), for every choice of the four map iteration orders. -/
-theorem groups_partition : GroupsPartition := groupsPartition
+theorem groups_partition (pkgs : List LPkg) (budget : Int) (o1 o2 o3 o4 : Order) (gs : List Grp)
+    (hu : (pkgs.map (·.name)).Nodup)
+    (ho1 : ∀ l, (o1 l).Perm l) (ho2 : ∀ l, (o2 l).Perm l) (ho3 : ∀ l, (o3 l).Perm l)
+    (ho4 : ∀ l, (o4 l).Perm l)
+    (h : groupByOriginAndSize pkgs budget o1 o2 o3 o4 = .ok gs) :
+    (gs.flatMap (·.pkgs)).Perm pkgs :=
+  groupsPartition pkgs budget o1 o2 o3 o4 gs hu ho1 ho2 ho3 ho4 h
 
 /-- T groups_closed: same origin ⇒ same group; `a` replaces `b` (version-checked exactly as
 `replacesGroup` does) ⇒ same group.  Packages sharing an origin or related by replaces are
 never split across layers. -/
-theorem groups_closed : GroupsClosed := groupsClosed
+theorem groups_closed (pkgs : List LPkg) (budget : Int) (o1 o2 o3 o4 : Order) (gs : List Grp)
+    (hu : (pkgs.map (·.name)).Nodup)
+    (ho1 : ∀ l, (o1 l).Perm l) (ho2 : ∀ l, (o2 l).Perm l) (ho3 : ∀ l, (o3 l).Perm l)
+    (ho4 : ∀ l, (o4 l).Perm l)
+    (h : groupByOriginAndSize pkgs budget o1 o2 o3 o4 = .ok gs)
+    (a : LPkg) (ha : a ∈ pkgs) (b : LPkg) (hb : b ∈ pkgs)
+    (hab : a.origin = b.origin ∨ replacesEdge pkgs a b = true) :
+    sameGroup gs a b = true :=
+  groupsClosed pkgs budget o1 o2 o3 o4 gs hu ho1 ho2 ho3 ho4 h a ha b hb hab
 
 /-- T group_perm_invariant: groups, their order, the order inside each group, and the error /
 panic outcome are independent of the four map iteration orders (also used by C01). -/
-theorem group_perm_invariant : GroupPermInvariant := groupPermInvariant
+theorem group_perm_invariant (pkgs : List LPkg) (budget : Int)
+    (o1 o2 o3 o4 o1' o2' o3' o4' : Order) (hu : (pkgs.map (·.name)).Nodup)
+    (ho1 : ∀ l, (o1 l).Perm l) (ho2 : ∀ l, (o2 l).Perm l) (ho3 : ∀ l, (o3 l).Perm l)
+    (ho4 : ∀ l, (o4 l).Perm l) (ho1' : ∀ l, (o1' l).Perm l) (ho2' : ∀ l, (o2' l).Perm l)
+    (ho3' : ∀ l, (o3' l).Perm l) (ho4' : ∀ l, (o4' l).Perm l) :
+    groupByOriginAndSize pkgs budget o1 o2 o3 o4 =
+      groupByOriginAndSize pkgs budget o1' o2' o3' o4' :=
+  groupPermInvariant pkgs budget o1 o2 o3 o4 o1' o2' o3' o4' hu ho1 ho2 ho3 ho4 ho1' ho2' ho3' ho4'
 
 /-- the outcome is an error exactly when the budget is negative or a replaces entry naming a
 present package cannot be evaluated; the function never panics -/
@@ -170,7 +191,10 @@ example : UniqueNames exPkgs ∧ replacesError exPkgs = false ∧
 
 /-- T group_count: at most `max budget 1` groups, for every input and all four map orders
 (hence at most `max budget 1 + 1` layers). -/
-theorem group_count : GroupCount := groupCount
+theorem group_count (pkgs : List LPkg) (budget : Int) (o1 o2 o3 o4 : Order) (gs : List Grp)
+    (h : groupByOriginAndSize pkgs budget o1 o2 o3 o4 = .ok gs) :
+    gs.length ≤ max budget.toNat 1 :=
+  groupCount pkgs budget o1 o2 o3 o4 gs h
 
 /-- for a budget of at least 1 the layer count (groups + top) never exceeds budget + 1 -/
 theorem layer_count_le_budget_succ (pkgs : List LPkg) (budget : Int) (o1 o2 o3 o4 : Order)
@@ -226,20 +250,38 @@ theorem alignStacks_closed (ws : List Path) (stack : List WEntry) :
   alignStacks_eq ws stack
 
 /-- T file_once -/
-theorem file_once : FileOnce := fileOnce
+theorem file_once (layerOf : Text → Nat) (n : Nat) (walk : List WEntry)
+    (hw : WalkOK walk) (ht : TargetsOK layerOf n walk)
+    (f : WEntry) (hf : f ∈ walk) (hd : f.isDir = false) (k : Nat) (hk : k ≤ n) :
+    ((splitOuts layerOf n walk).getD k []).filter (fun e => e.path = f.path) =
+      if k = target layerOf n f then [f.toEntry] else [] :=
+  fileOnce layerOf n walk hw ht f hf hd k hk
 
 /-- T layer_wellformed -/
-theorem layer_wellformed : LayerWellFormed := Split.layerWellFormed
+theorem layer_wellformed (layerOf : Text → Nat) (n : Nat) (walk : List WEntry)
+    (hw : WalkOK walk) (ht : TargetsOK layerOf n walk) :
+    ∀ L ∈ splitOuts layerOf n walk, Layers.layerWellFormed L = true :=
+  Split.layerWellFormed layerOf n walk hw ht
 
 /-- T top_has_true_dirs -/
-theorem top_has_true_dirs : TopHasTrueDirs := topHasTrueDirs
+theorem top_has_true_dirs (layerOf : Text → Nat) (n : Nat) (walk : List WEntry)
+    (hw : WalkOK walk) (ht : TargetsOK layerOf n walk) (hdu : DirsUnowned walk)
+    (hob : OwnersBelow layerOf n walk) :
+    (splitOuts layerOf n walk).getD n [] =
+      (walk.filter (fun f => f.owner.isNone)).map (·.toEntry) :=
+  topHasTrueDirs layerOf n walk hw ht hdu hob
 
 /-- T flatten_eq_single -/
-theorem flatten_eq_single : FlattenEqSingle := flattenEqSingle
+theorem flatten_eq_single (layerOf : Text → Nat) (n : Nat) (walk : List WEntry)
+    (hw : WalkOK walk) (ht : TargetsOK layerOf n walk) (hdu : DirsUnowned walk) (p : Path) :
+    lastFor (splitOuts layerOf n walk).flatten p = lastFor (singleLayer walk) p :=
+  flattenEqSingle layerOf n walk hw ht hdu p
 
 /-- the preorder property of `fs.WalkDir` (stated without the stack) gives the stack condition
 under which the splitting theorems are proved -/
-theorem wellNested_stackOK : WellNestedStackOK := wellNestedStackOK
+theorem wellNested_stackOK (walk : List WEntry) (hnd : (walk.map (·.path)).Nodup)
+    (hne : ∀ f ∈ walk, f.path ≠ []) (hwn : WellNested walk = true) : StackOK walk = true :=
+  wellNestedStackOK walk hnd hne hwn
 
 theorem layerOfGroups_fold_lt (N : Nat) (l : List (List Text × Nat)) (name : Text)
     (acc : Option Nat) (hl : ∀ x ∈ l, x.2 < N) (ha : ∀ i, acc = some i → i < N) :
